@@ -44,7 +44,7 @@ REQUIRED = {"repetition_runs": 100, "untapped_runs": 100, "argument_fingerprints
             "context_switches": 2000, "nested_inner_solves": 50}
 MIN_NONTRIVIAL = {"quick": 20, "thorough": 150}
 PLAN = [("repeat", 120, 1500), ("threads", 40, 500), ("nested", 12, 150),
-        ("inject", 0, 60)]
+        ("inject", 0, 60), ("warnfilter", 4, 24)]
 WALL_BUDGET = {"quick": 900, "thorough": 7200}
 
 
@@ -243,20 +243,28 @@ def run_threads(case, inject=False):
         rec.spec = specs[k]
         rec.built = sh if sh is not None else problems.build(specs[k])
         rec.run = run
-        with warnings.catch_warnings():
-            warnings.simplefilter("ignore")
-            with ctx.active(run):
-                try:
-                    rec.res = problems.call_minimize(rec.built)
-                except BaseException as exc:  # noqa: BLE001
-                    rec.exc = exc
+        # (no warnings.catch_warnings() here: it is not thread-safe; the
+        # filters are set once, in the main thread, around the whole batch)
+        with ctx.active(run):
+            try:
+                rec.res = problems.call_minimize(rec.built)
+            except BaseException as exc:  # noqa: BLE001
+                rec.exc = exc
         results[i] = rec
 
+    filters_before = list(warnings.filters)
     try:
+        warnings.simplefilter("ignore")
         with ThreadPoolExecutor(max_workers=nthreads) as ex:
             list(ex.map(work, range(len(jobs))))
     finally:
         sys.setswitchinterval(old)
+        # scipy's constraint classes use catch_warnings() inside the calls:
+        # whatever they leaked is undone here (KF-C11-warnings-filter-race is
+        # judged by the 'warnfilter' family only)
+        warnings.filters[:] = filters_before
+        if hasattr(warnings, "_filters_mutated"):
+            warnings._filters_mutated()
         ystats = None
         if inject:
             ystats = yieldinj.stats()
@@ -394,7 +402,57 @@ def run_nested(case):
                       counts=counts, sample=sample)
 
 
+def run_warnfilter(case):
+    """Process-wide warning filters must be the same after a batch of
+    concurrent calls as before (a leaked ``error`` filter makes any later
+    call whose objective emits a warning raise instead of returning)."""
+    import cobyqa
+    from scipy.optimize import LinearConstraint
+    rng = e2e.rng_of(ID, case)
+    n = int(rng.integers(2, 4))
+    a = rng.uniform(-1, 1, (int(rng.integers(1, 40)), n))
+    x0 = rng.uniform(-2, 2, n)
+
+    def job(i):
+        with ctx.active(ctx.Run(label=f"w{i}")):
+            return cobyqa.minimize(
+                lambda x: float(x @ x), x0,
+                constraints=LinearConstraint(a, -np.inf, 50.0),
+                options={"maxfev": 12}).nfev
+
+    before = list(warnings.filters)
+    old = sys.getswitchinterval()
+    sys.setswitchinterval(1e-6)
+    rounds = 0
+    leaked = []
+    try:
+        with ThreadPoolExecutor(max_workers=16) as ex:
+            for _ in range(6):
+                list(ex.map(job, range(32)))
+                rounds += 1
+                leaked = [f for f in warnings.filters if f not in before]
+                if leaked:
+                    break
+    finally:
+        sys.setswitchinterval(old)
+        warnings.filters[:] = before
+        if hasattr(warnings, "_filters_mutated"):
+            warnings._filters_mutated()
+    viols = []
+    if leaked:
+        viols.append(V(
+            "process_warning_filters_changed",
+            f"after {rounds * 32} concurrent calls sharing nothing but the "
+            f"process, warnings.filters gained {leaked[:2]!r}",
+            mechanism="warnings_filter_race"))
+    return e2e.record(case, viols, nt=None, tags=["fam:warnfilter"],
+                      counts={"warnfilter_batches": rounds,
+                              "concurrent_calls": rounds * 32})
+
+
 def run_case(case):
+    if case["fam"] == "warnfilter":
+        return run_warnfilter(case)
     if case["fam"] == "repeat":
         return run_repeat(case)
     if case["fam"] == "threads":
